@@ -5,7 +5,7 @@ exit 0  property held on everything analysed (KNOWN-FINDING lines possible)
 exit 1  >=1 violation not listed in known_findings.json; `VIOLATION property=<id> replay=<path>` per violation
 exit 2  analysis broken (driver does not compile, anchor vanished, floor not reached, negative control proved)
 """
-import sys, os, json, time, argparse, fnmatch, concurrent.futures as cf
+import sys, os, json, time, argparse, fnmatch, re, concurrent.futures as cf
 
 VERIF = os.path.dirname(os.path.abspath(__file__))
 sys.path.insert(0, VERIF)
@@ -78,6 +78,9 @@ def main():
     cov = dict(obligations=0, discharged=0, evaluations=0, distinct_nontrivial=0, samples=[],
                components=[], trusted_base=[], checker_cmd="")
     new_floors = {}
+    new_keys = {}
+    vanished = []
+    okeys = load_json(os.path.join(VERIF, "obligation_keys.json"), {})
 
     # ---------------- E1 ----------------
     e1_components = [c for c in spec.get("e1", []) if tier == "thorough" or not c.get("thorough_only")]
@@ -105,13 +108,25 @@ def main():
             negd = mine_list(r["negctl_declared"])
             negr = mine_list(r["negctl_residual"])
             fkey = "E1|%s|%s|%s" % (label, prop, tier)
-            n_distinct_decl = len(set((e["func"], e["id"], tuple(e["ints"])) for e in decl))
+            decl_keys = sorted(set("%s %s %s" % (e["func"], e["id"], list(e["ints"])) for e in decl))
+            n_distinct_decl = len(decl_keys)
             new_floors[fkey] = n_distinct_decl
+            new_keys[fkey] = decl_keys
             floor = floors.get(fkey)
             if floor is None and not args.freeze_floors:
                 broken.append("E1 %s: no floor recorded for %s/%s" % (label, prop, tier))
             elif floor is not None and n_distinct_decl < floor:
-                broken.append("E1 %s: %d reachable distinct obligations < floor %d (obligation points became unreachable or vanished)" % (label, n_distinct_decl, floor))
+                frozen = set(okeys.get(fkey, []))
+                gone = sorted(frozen - set(decl_keys))
+                if frozen and gone and n_distinct_decl > 0:
+                    # the TU still compiles and most obligation points are reachable, but some are now *proved unreachable*:
+                    # the library has undefined behaviour (or a contradiction with the property's preconditions) on exactly those paths
+                    for gk in gone[:40]:
+                        gid = gk.split(" ")[-2] if False else re.search(r" (C\d\d\.[\w.|]+) \[", gk)
+                        vanished.append(dict(engine="E1", rule="obligation point became unreachable in the optimised IR (undefined behaviour or contradiction on the path that leads to it)",
+                                             id=(gid.group(1) if gid else gk), func=gk.split(" C")[0], ints="", tu=c["tu"], key=gk, reproduce=r["cmd"]))
+                else:
+                    broken.append("E1 %s: %d reachable distinct obligations < floor %d (obligation points vanished)" % (label, n_distinct_decl, floor))
             if negd and len(negr) < len(set((e['func'], e['id'], tuple(e['ints'])) for e in negd)):
                 broken.append("E1 %s: a negative control was discharged (prover vacuous: UB or contradictory ASSUME on the path)" % label)
             if any(e["id"] == "?" for e in r["residual"]) :
@@ -216,7 +231,19 @@ def main():
         if not cov["checker_cmd"]:
             cov["checker_cmd"] = r3.get("cmd", "")
 
+    # vanished obligation points are violations unless a known finding names them
+    grouped_v = {}
+    for v in vanished:
+        f = known_match(kf, prop, "E1", v)
+        if f:
+            known.append((f, v)); continue
+        g = grouped_v.get(v["id"])
+        if g is None:
+            v["instances"] = []; grouped_v[v["id"]] = v; violations.append(v); g = v
+        g["instances"].append(v["key"])
     if args.freeze_floors:
+        okeys.update(new_keys)
+        json.dump(okeys, open(os.path.join(VERIF, "obligation_keys.json"), "w"), indent=0, sort_keys=True)
         floors.update(new_floors)
         json.dump(floors, open(os.path.join(VERIF, "floors.json"), "w"), indent=1, sort_keys=True)
         print("floors frozen:", json.dumps(new_floors))
